@@ -175,8 +175,13 @@ def run_case(acc, rnd, tier, case):
     # Interpreter.time shows afterwards, and 'step started', MacroStep.time and the monitors' clocks must all agree with it
     ticking = rnd.random() < 0.2
     REF = Mailbox()
-    it = Interpreter(sc, initial_context=pr.context(REF=REF), clock=ticking_clock() if ticking else None)
+    no_contracts = rnd.random() < 0.2       # documented parameter: the stream of meta-events is the same
+    if no_contracts:
+        acc.count('cases_with_ignore_contract')
+    it = Interpreter(sc, initial_context=pr.context(REF=REF), clock=ticking_clock() if ticking else None, ignore_contract=no_contracts)
     it.attach(pr.listener())
+    held = []           # 'step started' meta-events kept beyond their step, with the time they carried when delivered
+    it.attach(lambda m: held.append((m, m.time)) if m.name == 'step started' else None)
     rec = []
     if ticking:
         acc.count('cases_with_ticking_clock')
@@ -312,6 +317,11 @@ def run_case(acc, rnd, tier, case):
             acc.count('kind_' + kk)
         if any(e[0] == 'M' and e[1] == 'delayed event sent' for e in pr.log):
             acc.count('delayed_sends_seen')
+        stale = [(m_, t_) for (m_, t_) in held if m_.time != t_]
+        if stale:
+            acc.violation('C10:kept-meta-event-changed', "a 'step started' meta-event delivered with time %r reads %r %d steps later"
+                          % (stale[0][1], stale[0][0].time, len(held) - held.index(stale[0]) - 1), dict(wit, step=k))
+            return
         acc.count('stream_steps_checked')
         acc.count('meta_events_checked', len(mexp))
         meta_per_step.append(len(mexp))
@@ -348,7 +358,7 @@ def run_case(acc, rnd, tier, case):
     # ---- (3) non-interference -------------------------------------------------------------------------
     sc2, tmap2 = build.build_api(ch, coder=CODER10)
     pr2 = Probes(val=make_val(valseed, p_true))
-    it2 = Interpreter(sc2, initial_context=pr2.context(REF=REF), clock=ticking_clock() if ticking else None)
+    it2 = Interpreter(sc2, initial_context=pr2.context(REF=REF), clock=ticking_clock() if ticking else None, ignore_contract=no_contracts)
     r2 = Runner(it2, tmap2, log=pr2.log)
     k2 = 0
     for op in script:
@@ -386,7 +396,7 @@ def run_case(acc, rnd, tier, case):
             cum += n
         sc3, tmap3 = build.build_api(ch, coder=CODER10)
         pr3 = Probes(val=make_val(valseed, p_true))
-        it3 = Interpreter(sc3, initial_context=pr3.context(REF=REF), clock=ticking_clock() if ticking else None)
+        it3 = Interpreter(sc3, initial_context=pr3.context(REF=REF), clock=ticking_clock() if ticking else None, ignore_contract=no_contracts)
         it3.attach(pr3.listener())
         cnt = [0]
 
@@ -459,7 +469,7 @@ def run_case(acc, rnd, tier, case):
         as_property = rnd.random() < 0.5
         sc4, tmap4 = build.build_api(ch, coder=CODER10)
         pr4 = Probes(val=make_val(valseed, p_true))
-        it4 = Interpreter(sc4, initial_context=pr4.context(REF=REF), clock=ticking_clock() if ticking else None)
+        it4 = Interpreter(sc4, initial_context=pr4.context(REF=REF), clock=ticking_clock() if ticking else None, ignore_contract=no_contracts)
         seen, late = [], []
 
         def R4(event, time):
